@@ -461,6 +461,10 @@ def feature_counters(cases, obs):
             elif p["kind"] == "struct":
                 if p["qual"]:
                     f["qualified_struct"] += 1
+                    if m["verb"] not in rg.BODY_VERBS and v[1] is not None and \
+                            any(not n[0].isupper() for _, n in rg.flat_fields(rg.struct_of(c["pkg"], p))):
+                        key = "qualified_struct_getter_fields_in_query_" + ("ptr" if p["ptr"] else "value")
+                        f[key] = f.get(key, 0) + 1
                 if v[1] is None:
                     f["struct_nil_body"] += 1
                 else:
